@@ -443,10 +443,12 @@ func (OracleC15) compareStore(x *Exec, s *Snap, when string) {
 	have := map[string]*big.Int{}
 	for _, r := range s.Redels {
 		k := fmt.Sprintf("%d|%s|%d|%d", r.D, r.Denom, r.T, r.Completion.UnixNano())
-		if have[k] != nil {
-			x.Fail("C15", "records", "%s: duplicate redelegation record %s", when, k)
+		if have[k] == nil {
+			have[k] = new(big.Int)
 		}
-		have[k] = r.Amt.BigInt()
+		// (records are compared aggregated by (delegator, denom, destination, completion): an
+		// implementation that keeps one record per source is as good as one that merges them)
+		have[k].Add(have[k], r.Amt.BigInt())
 	}
 	hk, wk := sortedKeys(have), sortedKeys(want)
 	if !eqStrings(hk, wk) {
@@ -471,14 +473,12 @@ func (OracleC15) compareStore(x *Exec, s *Snap, when string) {
 	}
 	sortStrings(haveQ)
 	sortStrings(wantQ)
-	if x.Has("ok:" + KReimport) {
-		// InitGenesis queues every imported redelegation twice (addRedelegation queues, and the
-		// import queues again): a duplicate time-queue entry is unobservable (the second deletion at
-		// maturity finds nothing). After an import the queue is compared as a set.
-		// ... and redelegations sharing (delegator, source, destination, denom, completion) come
-		// back as one record and one queue entry with the summed balance; the queue only drives the
-		// clean-up by key, the amounts are judged on the records above. After an import the queue is
-		// compared as a set of keys.
+	{
+		// The time queue only drives the clean-up by key (delegator, source, destination, denom,
+		// completion): how many entries carry a key and which amounts they hold is unobservable
+		// (a second deletion finds nothing; amounts are judged on the records above; InitGenesis
+		// itself queues every imported redelegation twice and merges same-key redelegations). The
+		// queue is compared as a set of keys.
 		strip := func(a []string) []string {
 			var out []string
 			for _, v := range a {
